@@ -13,16 +13,16 @@ CLAIMED = {
  'C02': ('abstract interpretation of the code generator + term comparison with reference semantics (detection direction) + scope/draw consistency + fail-closed table of ignorable-sentinel producers (path-condition fingerprints)',
          'For every enumerated shape the generated term equals the reference term exactly (prescribed item strategy: random index modulo the length of the same container under is_random, first item otherwise; every fixed-tuple position and the length test; all literals by ==; isinstance-and-issubclass; metahint and every validator conjoined) or implies it; the random draw is in scope exactly when used and is drawn once; an ignorable child elides only the child test; every producer of the ignorable sentinel is one of 14 reviewed producers; every container sign of the sign universe receives the item strategy of its family; the memo key of the generated expression contains the configuration.',
          GEN_NOTE + ' Assumes R % n over 32 bits reaches every residue for n <= 2**32. C02.R4 is deliberately fail-closed for new producers.', 'DESIGN.md §4 C02'),
- 'C03': ('exhaustive evaluation of both dispatchers over the folded sign universe (167 cases) by abstract interpretation + symbolic interpretation of the re-sampling functions + ast queries on generated wrappers under each warn-flag combination + reviewed table of private raise sites',
-         'Generator and explanation path are two implementations of the hint semantics: for every sign x subscription the production the generator emits and the cause finder find_cause selects are paired as the specification table requires; both sides share one logic object per container family; each logic class re-samples exactly the item expression its template tested; the violation class and the raise-vs-warn handler are selected by the same pith kind; the OO API delegates; private desynchronisation raise sites are the 9 reviewed ones; operations the explanation path applies to the checked object are licensed by the guards of the generated code.',
+ 'C03': ('exhaustive evaluation of both dispatchers over the folded sign universe (167 cases) by abstract interpretation + symbolic interpretation of the re-sampling functions and of the container cause finders on operation-logging objects + abstract interpretation of get_hint_object_violation (class selection, culprits, message, desynchronisation), of the Annotated cause finder and of the validator diagnoses with scripted validators + ast queries on generated wrappers under each warn-flag combination + raise-site attribution through private helpers',
+         'Generator and explanation path are two implementations of the hint semantics: for every sign x subscription the production the generator emits and the cause finder find_cause selects are paired as the specification table requires; both sides share one logic object per container family; each logic class re-samples exactly the item expression its template tested; the violation class and the raise-vs-warn handler are selected by the same pith kind; the OO API delegates; private desynchronisation raise sites are the 9 reviewed ones; operations the explanation path applies to the checked object are licensed by the guards of the generated code. User validators are called by the explanation exactly as the generated check calls them, and the diagnosis of an operand the check short-circuits away cannot raise (F21 repaired in /repo, fix: 25c60d4).',
          GEN_NOTE + ' Agreement inside a paired handler for every object (user __instancecheck__, validators raising) is not decided.', 'DESIGN.md §4 C03'),
  'C04': ('abstract interpretation of the wrapper generator (generate_code, code_check_args/return, iter_func_args, make_func_signature) over abstract callables + syntax-tree queries on the generated wrapper source',
          'For 326 abstract callables (12 signatures covering all five parameter kinds x annotation patterns x return kinds x callable kinds) the wrapper source beartype would generate is obtained by interpretation and inspected: each parameter kind is localised from the right source with the true index / name, unpassed parameters are not checked, the keywordable set is exact, there is exactly one call-through f(*args, **kwargs) outside any try, args/kwargs are never modified, parameter checks precede and the return check follows the call, and the returned name is the call result; a functools.wraps wrapper is checked against the wrapped signature exactly when it declares no named parameter (32 wrapper-signature shapes).',
          'Trusted: as for C01, plus the abstract code object (co_argcount, co_posonlyargcount, co_kwonlyargcount, co_flags, co_varnames) standing in for CPython code objects. CPython\'s own binding errors are not modelled.', 'DESIGN.md §4 C04'),
- 'C08': ('abstract interpretation of BeartypeCallDecorFuncData.reinit + generate_code for the 4 callable kinds + syntactic kind classification + dataflow facts on the async-yield-from template',
-         'For every callable kind x return kind the generated wrapper is syntactically the same kind of callable and passes the compiler front-end; the awaited value / generator object is what is bound, checked and returned or delegated to; the hand-written async yield-from satisfies the PEP 380 forwarding obligations (asend iff a value was sent, athrow for thrown exceptions, aclose + re-raise on GeneratorExit before BaseException, StopAsyncIteration caught only around forwarding awaits, latest inner value yielded).',
+ 'C08': ('abstract interpretation of BeartypeCallDecorFuncData.reinit + generate_code for the callable kinds (incl. wraps-adapters and kind-neutral code flags) + syntactic kind classification + a protocol evaluator for the generated async-yield-from code explored against caller x inner-generator scripts (sa/agenproto.py) + abstract interpretation of the return-hint reducer and the root sanifier',
+         'For every callable kind x return kind the generated wrapper is syntactically the same kind of callable and passes the compiler front-end; the awaited value / generator object is what is bound, checked and returned or delegated to; the hand-written async yield-from satisfies the PEP 380 forwarding obligations (asend iff a value was sent, athrow for thrown exceptions, aclose + re-raise on GeneratorExit before BaseException, StopAsyncIteration caught only around forwarding awaits, latest inner value yielded). The forwarding code is compared with PEP 380 transposed to asynchronous generators on every caller script x inner script up to 4 (thorough: 5) operations; Coroutine[Y, S, R] returns reduce to R, generators accept only hints they can return, and the return reducer runs after string annotations are resolved.',
          'Trusted: as for C04; the PEP 380/525 obligation table in rules/c08.py is specification. Trace equivalence with the undecorated object for all operation sequences is not decided.', 'DESIGN.md §4 C08'),
- 'C09': ('effect-vocabulary analysis of all generated terms + structural guard check of the quasi-iterable production + strategy-arm analysis of loops in the explanation path + who-may-read of the strategy options',
+ 'C09': ('effect-vocabulary analysis of all generated terms + structural guard check of the quasi-iterable production + abstract interpretation of every container cause finder on an operation-logging abstract object under the O1 strategy + who-may-read of the strategy options',
          'Every operation generated code applies to (parts of) the checked object is in the O(1) vocabulary, generated code is a single expression without loops / comprehensions / membership tests / aggregates, non-collections are never iterated, every loop of the explanation path over the object is one-element under O1 (or bounded by the hint), and only sampling code reads conf.strategy / conf.is_random. By induction over the hint tree the items read are bounded by the container levels of the hint.',
          GEN_NOTE + ' Cost of user __len__/__getitem__/isinstance hooks and of repr is not bounded.', 'DESIGN.md §4 C09'),
  'C10': ('effect-vocabulary analysis of generated terms + exhaustive sign-universe dispatch against a specification table of re-iterable / one-shot families + sign-set cross-check + guard dominance in the explanation path',
@@ -39,10 +39,10 @@ CLAIMED = {
 
 AST_NOTE = "Trusted: CPython ast; name-based resolution of imports and calls (first-class callables are unresolved callees and fail closed where a rule quantifies over every caller); the recognised idioms of DESIGN-tables T6; the reasoned tables held in the rule module (one line of reason per entry). Necessary conditions only: behaviour over all histories / schedules is constrained, not proved."
 CLAIMED.update({
- 'C05': ('visitor return-shape analysis + mutation whitelist + must-dataflow typestate (constructed -> located) + abstract interpretation of visit_AnnAssign over the grammar of target kinds + path enumeration of the decorator-placement dispatch',
-         'The import-hook transformer only adds: every visit_* returns the visited node once plus fresh nodes, original nodes are only mutated by decorator insertion and the star-import slice, generated statements bind reserved names; all definition kinds are visited and recursed; every constructed node is located before it escapes; the star import goes after the docstring/__future__ prefix; annotated assignments get a check for every target kind (exhaustive 3x2x2x2); hook-time decoration failures are warnings; decorator placement is total and inserts exactly once on every path; the configuration a module is transformed with is the one its injected code looks up at run time.',
+ 'C05': ('visitor return-shape analysis + mutation whitelist + may-dataflow typestate (constructed -> located) + abstract interpretation of visit_Module, visit_AnnAssign, the decorator-placement dispatch, the node factories of utilastmake, get_code and the route selection over exhaustive abstract domains (module bodies, target kinds x options x scopes, node kinds x positions x decorator lists, loader states) + reachability of original sub-expressions from injected statements',
+         'The import-hook transformer only adds: every visit_* returns the visited node once plus fresh nodes, original nodes are only mutated by decorator insertion and the star-import slice, generated statements bind reserved names; all definition kinds are visited and recursed; every constructed node is located before it escapes; the star import goes after the docstring/__future__ prefix; annotated assignments get a check for every target kind (exhaustive 3x2x2x2); hook-time decoration failures are warnings; decorator placement is total and inserts exactly once on every path; the configuration a module is transformed with is the one its injected code looks up at run time. Decorators go where the option for that kind of definition says (async def included); node factories copy positions only onto nodes they create; no compound original sub-expression is evaluated a second time by the injected statement (known finding F22).',
          AST_NOTE + ' Known findings F4, F16.', 'DESIGN.md §4 C05'),
- 'C06': ('lock-region analysis over a resolved call graph + structural check of the lookup fold + may-dataflow (store before raise) with path enumeration of sibling callees + interprocedural write-set vs restore-set + value-provenance of the restore condition modulo the normaliser',
+ 'C06': ('lock-region analysis over a resolved call graph + abstract interpretation of get_package_conf_or_none, hook_packages and is_packages_trie over abstract registry shapes (whitelist chains, configurations per node, blacklist positions, prior exclusions x ordered skip lists) + may-dataflow (store before raise) with path enumeration of sibling callees + interprocedural write-set vs restore-set + value-provenance of the restore condition modulo the normaliser',
          'Registry and path-hook state are only touched under claw_lock (lexically or in every caller); blacklist dominates whitelist and the deepest registered prefix wins; no registry store precedes a conflict raise on any path; beartyping() restores every field it (transitively) writes and compares with the value it stored; path-hook add/remove are idempotent and paired with cache invalidation; registration descends to the node of the full dotted name; the registry-emptiness test sees registrations at every depth (abstract registry shapes); only the registration module stores configurations.',
          AST_NOTE + ' Known findings F6, F7; F5 repaired in /repo (fix: dc3e6e4).', 'DESIGN.md §4 C06'),
  'C11': ('raise-site typing over the resolved class hierarchy (327 sites) + exception_cls default/argument flow + sibling check of make_func routes + family layering + guard dominance of first-hash sites + wrapper try-body facts',
@@ -54,20 +54,20 @@ CLAIMED.update({
  'C14': ('discovery of module-level tables written at run time + clear-list membership + key-derivation classification (lossy / id) + key-completeness of the explicit memo tables + call-graph effect summaries (impure reads under exception-memoising decorators) + must-dataflow typestate of pooled objects + positional-call scan',
          'Every run-time memo table is cleared by clear_caches or reasoned exempt; no memo key stands in lossily (repr / id without retention) for the memoised object; every parameter of the explicitly memoised computations is in the key or tracked by the cacheability flag that guards the store; functions whose exceptions are memoised do not depend on the environment; pooled scratch objects are released on every path and never escape; memoised functions are only called positionally.',
          AST_NOTE + ' Known findings F3, F13.', 'DESIGN.md §4 C14'),
- 'C15': ('lockset consistency per shared table + critical-section shape of singleton creation + pooled-object typestate + lock-order graph from with-nesting and callee lock summaries (cycle detection) + foreign-global patch scan',
+ 'C15': ('lockset consistency per shared table + critical-section analysis of singleton creation and cache classes (lock / state slots found by role) + pooled-object typestate + lock-order graph from with-nesting and callee lock summaries (cycle detection) + foreign-global patch scan with dataflow-recognised restores',
          'State accessed under a lock anywhere is accessed under it everywhere; lock-free tables only see atomic operations or reviewed benign check-then-act; singleton lookup/construct/store share one critical section; pooled objects follow acquired->released->dead; the lock order graph is acyclic; no process-global of a foreign module is patched from concurrently callable code.',
          AST_NOTE + ' "For all interleavings" is only constrained through these lock-set conditions; single dict operations are assumed atomic under the GIL. Known finding F10.', 'DESIGN.md §4 C15'),
- 'C16': ('foreign-global patch scan + who-reads analysis of configuration options in the transformer vs inputs of the cache-path marker + patch/restore pairing shape + marker composition check',
+ 'C16': ('foreign-global patch scan + who-reads analysis of configuration options in the transformer vs inputs of the cache-path marker + abstract interpretation of get_code (try/finally and context managers modelled) over exclusion x registration x loader outcome + abstract interpretation of the beartype cache-path function as the import machinery calls it',
          'The cache-path patch is restored in finally on every exit and un-hooked paths run outside it; the marker is non-empty, version-bound and appended to the interpreter tag; every option that changes the transformed code must be an input of the marker; the patch itself is a process-global monkey-patch.',
          AST_NOTE + ' CPython\'s source-staleness check for .pyc files is trusted. Known findings F10, F11.', 'DESIGN.md §4 C16'),
- 'C18': ('reducer-order check + provenance of every child handed to the generator / explanation path + call-graph reachability of reduce_hint + who-may-read of the tower and violation options + folded expansion table',
+ 'C18': ('reducer-order check (reducer tuple and overrides reader found by role) + provenance of every child handed to the generator / explanation path + call-graph reachability of reduce_hint + who-may-read of the tower and violation options + abstract interpretation of the tower merge over override states',
          'User overrides are consulted first on every reduction iteration; every child hint comes from a sanifying producer that reaches reduce_hint; is_pep484_tower is data folded into hint_overrides under beartype/_conf only (float->float|int, complex->complex|float|int); the violation options are read only by the reporting layer.',
          AST_NOTE + ' Semantic equality with the hand-rewritten hint is not decided.', 'DESIGN.md §4 C18'),
  'C19': ('field-read analysis of the container protocol methods + contradiction rule on __eq__/__hash__ + short-circuit analysis of is_subhint + cache-call shape + sibling cross-check of subclass overrides',
          'len/iter/index/bool/contains/args of TypeHint are views of one tuple; __eq__ and __hash__ must use one key; no hint may be unconditionally both least and greatest; TypeHint(h) goes through the locked cache keyed by h with an unhashable fallback; subclasses overriding the wrapped children keep them in step with args. Reflexivity / transitivity / soundness of is_subhint over all hints are NOT decided.',
          AST_NOTE + ' Known findings F14a, F14b, F14c.', 'DESIGN.md §4 C19'),
- 'C20': ('dependence analysis of infer_hint returns + sibling deviance among state-machine nodes + seen-set threading of recursive calls + factory/sign table agreement',
-         'A result that does not depend on the object must accept everything; protocol nodes of the inference state machine yield abstract factories; the recursion guard comes first and every recursive call passes the extended seen-set; every builtin factory has a supported sign. The round trip for all objects is NOT decided.',
+ 'C20': ('dependence analysis of infer_hint returns + sibling deviance among state-machine nodes + seen-set threading of recursive calls + factory/sign table agreement incl. arity + abstract interpretation of the item inferer over abstract collections x strategies',
+         'A result that does not depend on the object must accept everything; protocol nodes of the inference state machine yield abstract factories; the recursion guard comes first and every recursive call passes the extended seen-set; every builtin factory has a supported sign. The round trip for all objects is NOT decided. Under the On strategy the item hint is the union of the hints of every item (every key and value; every position of a short root tuple).',
          AST_NOTE + ' Known finding F15a; F15b repaired in /repo (fix: 4291237).', 'DESIGN.md §4 C20'),
 })
 
